@@ -31,7 +31,7 @@ type PropSpec struct {
 	MaxDepth    int
 	BoundIsViol bool
 	Cross       string // thorough tier: second back end re-deciding every obligation
-	Repeat      int // native replay repetitions (map-order dependent properties)
+	Repeat      int    // native replay repetitions (map-order dependent properties)
 	Bounds      []string
 	Assumptions []string
 	Models      []string
